@@ -46,3 +46,30 @@ Fixpoint sample_fields (k : nat) (fields : list (string * list seg)) : list (str
   | [] => []
   | (name, t) :: fs => let '(r, k') := instantiate k t in (name, sjoin "/" r) :: sample_fields k' fs
   end.
+
+(* ---- HttpRule.sample_request: typed path fields ----
+   a string field gets the instantiated template (the counter advances once per wildcard); any other primitive gets
+   Field.mock_value_original_type: int = sum of the code points of the (possibly suffixed) attribute name, bool = True *)
+Inductive pkind := PStr | PInt | PBool.
+Inductive pval := VS (s : string) | VI (n : nat) | VB (b : bool).
+Fixpoint name_sum (s : string) : nat :=
+  match s with EmptyString => 0 | String c s' => N.to_nat (ord c) + name_sum s' end.
+
+Fixpoint sample_typed (k : nat) (fields : list (string * string * pkind * list seg)) : list (string * pval) :=
+  match fields with
+  | [] => []
+  | (path, attr, kind, t) :: fs =>
+      match kind with
+      | PStr => let '(r, k') := instantiate k t in (path, VS (sjoin "/" r)) :: sample_typed k' fs
+      | PInt => (path, VI (name_sum attr)) :: sample_typed k fs
+      | PBool => (path, VB true) :: sample_typed k fs
+      end
+  end.
+
+(* how the value is written into the URL (str(value)) *)
+Definition render (v : pval) : list string :=
+  match v with
+  | VS s => split_on "/"%char s
+  | VI n => [dec n]
+  | VB b => [if b then "True" else "False"]
+  end.
